@@ -26,6 +26,9 @@ import (
 
 const metricID = uint32(7)
 
+// ballastID: the metric of the sibling family's files (never observed)
+const ballastID = uint32(9999)
+
 var fieldPool = []md.Field{{ID: 1, Type: field.SumField}, {ID: 2, Type: field.MinField}, {ID: 3, Type: field.MaxField},
 	{ID: 4, Type: field.LastField}, {ID: 5, Type: field.FirstField}, {ID: 6, Type: field.HistogramField}}
 
@@ -57,6 +60,7 @@ type world struct {
 	srcName   string
 	tgtName   string
 	famName   string
+	sibName   string // a sibling family of the source store that rolls into the same target family ("" = none)
 	tgtFam    string
 	src, tgt  kv.Store
 	srcFamily kv.Family
@@ -193,10 +197,13 @@ func (w *world) observe() (obsJ, string) {
 		}
 		sort.Slice(nums, func(i, j int) bool { return nums[i] < nums[j] })
 		for _, n := range nums {
-			ds, err := md.ReadFile(snap, n, []uint32{metricID})
+			ds, err := md.ReadFile(snap, n, []uint32{metricID, ballastID})
 			if err != nil {
 				w.fail("read target file", err)
 				continue
+			}
+			if _, sib := ds[ballastID]; sib && ds[metricID] == nil {
+				continue // a file of the sibling family's run
 			}
 			if d, ok := ds[metricID]; ok {
 				o.TFiles = append(o.TFiles, decodedEntries(d))
@@ -254,9 +261,33 @@ func copyDir(src, dst string) error {
 	return exec.Command("cp", "-r", src, dst).Run()
 }
 
+// siblingRun: another family of the same source store (a neighbouring hour / day) that rolls into the same target family
+// gets a file of a metric of its own and completes a whole rollup run, reference bookkeeping included
+func (w *world) siblingRun() {
+	sib, err := w.src.CreateFamily(w.sibName, kv.FamilyOption{Merger: string(metricsdata.MetricDataMerger), RollupThreshold: 1000, CompactThreshold: 1000})
+	if err != nil {
+		w.fail("sibling family", err)
+		return
+	}
+	m := md.Metric{ID: ballastID, Fields: []md.Field{{ID: 1, Type: field.SumField}}, Start: 5, End: 6,
+		Series: []md.Series{{ID: 1, Values: map[uint8]map[uint16]float64{1: {5: 1, 6: 2}}}}}
+	if err := md.WriteFile(sib, []md.Metric{m}); err != nil {
+		w.fail("sibling file", err)
+		return
+	}
+	w.src.ForceRollup()
+	time.Sleep(2 * time.Millisecond)
+	kv.VerifWaitBackground(sib)
+	w.out.Count("sibling-rollup-runs")
+}
+
 func (w *world) rollup(n int) {
 	img := w.base + ".img"
 	taken := false
+	sibling := n == 4 // as 1, with a sibling family's complete run between the target commit and the crash
+	if sibling {
+		n = 1
+	}
 	if n < 3 {
 		point := "kv.rollup.afterTargetCommit"
 		if n == 2 {
@@ -265,6 +296,9 @@ func (w *world) rollup(n int) {
 		verifhook.Set(func(p string) {
 			if p == point && !taken {
 				taken = true
+				if sibling && w.sibName != "" {
+					w.siblingRun()
+				}
 				if err := copyDir(w.base, img); err != nil {
 					w.fail("crash image", err)
 				}
@@ -377,6 +411,19 @@ func runCase(out *vh.Out, root string, id int, name, sig string, cfg config, scr
 	w.famName = strconv.Itoa(fam)
 	tSeg := tcalc.CalcSegmentTime(famStart)
 	w.tgtFam = strconv.Itoa(tcalc.CalcFamily(famStart, tSeg))
+	// the neighbouring family (next or previous hour / day / month) if it lies in the same source segment and target family
+	for _, d := range []int{1, -1} {
+		sf := fam + d
+		if sf < 0 {
+			continue
+		}
+		sStart := scalc.CalcFamilyStartTime(segTime, sf)
+		if scalc.CalcSegmentTime(sStart) == segTime && scalc.CalcFamily(sStart, segTime) == sf &&
+			tcalc.CalcSegmentTime(sStart) == tSeg && tcalc.CalcFamily(sStart, tSeg) == tcalc.CalcFamily(famStart, tSeg) {
+			w.sibName = strconv.Itoa(sf)
+			break
+		}
+	}
 	if err := w.open(); err != nil {
 		out.Violation(0, "open", err.Error(), nil)
 		return
@@ -454,6 +501,9 @@ func runCase(out *vh.Out, root string, id int, name, sig string, cfg config, scr
 		case 'r':
 			n := int(s[1] - '0')
 			w.rollup(n)
+			if n == 4 {
+				n = 1 // for the model: a crash after the target commit
+			}
 			nroll++
 			if n < 3 {
 				ncut++
@@ -526,8 +576,10 @@ func randomScript(r *vh.Rand) []string {
 			sc = append(sc, "f")
 		case x < 60:
 			sc = append(sc, "r3")
-		case x < 72:
+		case x < 66:
 			sc = append(sc, "r1")
+		case x < 72:
+			sc = append(sc, "r4")
 		case x < 84:
 			sc = append(sc, "r2")
 		default:
